@@ -1061,6 +1061,25 @@ def auto_consts(out, functions, repo, log):
                     txt = apply_core_rules(src0[it.start:it.end], log, '%s::%s' % (rel, it.name), keep_pub=False)
                     add.append((rel, it.name, txt))
                     defined.add(it.name)
+            # constants imported from another module of the crate: `use crate::a::b::{.., NAME, ..};`
+            for um in re.finditer(r'\buse\s+crate::([\w:]+?)::(?:\{([^}]*)\}|(\w+))\s*;', src0):
+                imported = [x.strip() for x in (um.group(2) or um.group(3)).split(',')]
+                for nm in imported:
+                    if nm in names and nm not in defined:
+                        modp = um.group(1).replace('::', '/')
+                        for cand in ('src/%s.rs' % modp, 'src/%s/mod.rs' % modp):
+                            p2 = os.path.join(repo, cand)
+                            if not os.path.exists(p2):
+                                continue
+                            if p2 not in _item_cache:
+                                s2 = open(p2).read()
+                                _item_cache[p2] = (s2, rustlex.find_items(s2))
+                            s2, items2 = _item_cache[p2]
+                            for it in items2:
+                                if it.kind == 'const' and it.owner == '' and it.name == nm and nm not in defined:
+                                    txt = apply_core_rules(s2[it.start:it.end], log, '%s::%s' % (cand, nm), keep_pub=False)
+                                    add.append((cand, nm, txt))
+                                    defined.add(nm)
         if not add:
             break
         first = next((i for i, (_, o) in enumerate(out) if o.startswith('repo:')), len(out))
